@@ -278,6 +278,7 @@ def process(ctx, scenarios):
         for k, (op, o) in enumerate(zip(sc['ops'], im)):
             if op['k'] == 'add' and not o.get('ok'):
                 ctx.fail('valid-resource-is-added', sc, {'op': k, 'error': o})
+        store.judge_routes(ctx, sc, im)
         if mo is not None:
             for k, (op, oi, om) in enumerate(zip(sc['ops'], im, mo)):
                 if op['k'] == 'obs':
